@@ -70,6 +70,12 @@ func (n *Normalizer) Normalize(fn *Function) {
 		}
 		rebuild(fn)
 	}
+	// a return block that merges several exits through phis (the shape a helper that ends in `return x` leaves when it
+	// is absorbed into `return helper()`) is given back one return per incoming edge, so that exits are classified
+	// per path again
+	if splitReturns(fn) {
+		rebuild(fn)
+	}
 	n.state[fn] = 2
 }
 
@@ -125,7 +131,11 @@ func (n *Normalizer) findSite(fn *Function) *Call {
 			if callee == nil {
 				continue
 			}
-			if _, isClosure := call.Call.Value.(*MakeClosure); isClosure {
+			if mc, isClosure := call.Call.Value.(*MakeClosure); isClosure {
+				// a local closure that is called on the spot (`f := func(){...}; f()`) is its body
+				if n.inlinableClosure(fn, mc, call) {
+					return call
+				}
 				continue
 			}
 			if len(call.Call.Args) != len(callee.Params) {
@@ -164,6 +174,34 @@ func cloneInstr(ins Instruction) Instruction {
 	return out
 }
 
+// inlinableClosure: a closure of fn itself, without closures, defers or recover of its own, small, called directly.
+func (n *Normalizer) inlinableClosure(fn *Function, mc *MakeClosure, call *Call) bool {
+	callee, ok := mc.Fn.(*Function)
+	if !ok || callee.parent != fn || len(callee.Blocks) == 0 || len(callee.AnonFuncs) > 0 || callee.Recover != nil {
+		return false
+	}
+	if len(call.Call.Args) != len(callee.Params) || len(mc.Bindings) != len(callee.FreeVars) {
+		return false
+	}
+	if n.state[callee] == 1 {
+		return false
+	}
+	n.Normalize(callee)
+	cnt, rets := 0, 0
+	for _, b := range callee.Blocks {
+		cnt += len(b.Instrs)
+		for _, ins := range b.Instrs {
+			switch ins.(type) {
+			case *Defer, *RunDefers, *Go:
+				return false
+			case *Return:
+				rets++
+			}
+		}
+	}
+	return cnt <= 200 && rets > 0
+}
+
 func (n *Normalizer) inlineCall(fn *Function, call *Call) {
 	callee := call.Call.StaticCallee()
 	n.Inlined[callee]++
@@ -179,6 +217,12 @@ func (n *Normalizer) inlineCall(fn *Function, call *Call) {
 	vmap := map[Value]Value{}
 	for i, p := range callee.Params {
 		vmap[p] = call.Call.Args[i]
+	}
+	// a closure called on the spot: its free variables are the cells bound at its creation
+	if mc, isClosure := call.Call.Value.(*MakeClosure); isClosure {
+		for i, fv := range callee.FreeVars {
+			vmap[fv] = mc.Bindings[i]
+		}
 	}
 	// clone blocks
 	bmap := map[*BasicBlock]*BasicBlock{}
@@ -980,3 +1024,128 @@ func checkDominance(fn *Function) string {
 type reportBuf []byte
 
 func (b *reportBuf) Write(p []byte) (int, error) { *b = append(*b, p...); return len(p), nil }
+
+// splitReturns: for a block [phi..., (spill of the results, rundefers, reload)?, return] with several predecessors
+// whose values are used inside the block only, each predecessor gets its own copy of the block with the phi operands
+// of its edge.
+func splitReturns(fn *Function) bool {
+	changed := false
+	blocks := append([]*BasicBlock(nil), fn.Blocks...)
+	for _, M := range blocks {
+		if len(M.Preds) < 2 || len(M.Instrs) == 0 || M == fn.Recover {
+			continue
+		}
+		if _, ok := M.Instrs[len(M.Instrs)-1].(*Return); !ok {
+			continue
+		}
+		nphi := 0
+		for _, ins := range M.Instrs {
+			if _, ok := ins.(*Phi); !ok {
+				break
+			}
+			nphi++
+		}
+		if nphi == 0 {
+			continue
+		}
+		okShape := true
+		inM := map[Instruction]bool{}
+		for _, ins := range M.Instrs {
+			inM[ins] = true
+		}
+		for _, ins := range M.Instrs[nphi : len(M.Instrs)-1] {
+			switch x := ins.(type) {
+			case *RunDefers:
+			case *Store:
+				if _, isAlloc := x.Addr.(*Alloc); !isAlloc {
+					okShape = false
+				}
+			case *UnOp:
+				if _, isAlloc := x.X.(*Alloc); !isAlloc || x.Op.String() != "*" {
+					okShape = false
+				}
+			default:
+				okShape = false
+			}
+		}
+		// values defined in M are used in M only
+		for _, ins := range M.Instrs {
+			v, isVal := ins.(Value)
+			if !isVal || v.Referrers() == nil {
+				continue
+			}
+			for _, r := range *v.Referrers() {
+				if !inM[r] {
+					okShape = false
+				}
+			}
+		}
+		for _, P := range M.Preds {
+			cnt := 0
+			for _, sb := range P.Succs {
+				if sb == M {
+					cnt++
+				}
+			}
+			if cnt != 1 || P == M {
+				okShape = false
+			}
+		}
+		if !okShape {
+			continue
+		}
+		var rands []*Value
+		for k, P := range M.Preds {
+			E := &BasicBlock{Comment: "ret." + M.Comment, parent: fn}
+			vmap := map[Value]Value{}
+			for _, ins := range M.Instrs[:nphi] {
+				ph := ins.(*Phi)
+				vmap[ph] = ph.Edges[k]
+			}
+			for _, ins := range M.Instrs[nphi:] {
+				var ni Instruction
+				switch x := ins.(type) {
+				case *RunDefers:
+					ni = new(RunDefers)
+				case *Store:
+					ni = &Store{Addr: x.Addr, Val: x.Val, pos: x.pos}
+				case *UnOp:
+					nu := &UnOp{Op: x.Op, X: x.X, CommaOk: x.CommaOk}
+					nu.setType(x.Type())
+					nu.setPos(x.Pos())
+					vmap[x] = nu
+					ni = nu
+				case *Return:
+					ni = &Return{Results: append([]Value(nil), x.Results...), pos: x.pos}
+				}
+				rands = ni.Operands(rands[:0])
+				for _, r := range rands {
+					if *r != nil {
+						if nv, ok := vmap[*r]; ok {
+							*r = nv
+						}
+					}
+				}
+				ni.setBlock(E)
+				E.Instrs = append(E.Instrs, ni)
+			}
+			E.Preds = []*BasicBlock{P}
+			for i, sb := range P.Succs {
+				if sb == M {
+					P.Succs[i] = E
+				}
+			}
+			fn.Blocks = append(fn.Blocks, E)
+			E.Index = len(fn.Blocks) - 1
+		}
+		M.Preds = nil
+		for i, b := range fn.Blocks {
+			if b == M {
+				fn.Blocks = append(fn.Blocks[:i:i], fn.Blocks[i+1:]...)
+				break
+			}
+		}
+		changed = true
+	}
+	return changed
+}
